@@ -139,11 +139,9 @@ def unregister (ts : TS) : TS × List Obs :=
     if ok then (.none, [.reg c.id .unregister true, dropObs c', .ret .ok])
     else (.remove c', [.reg c.id .unregister false, .ret .err])
   | .replace n o =>
+    -- only the old child was ever registered (fix of finding F16); the new one waits for the next registration
     let (o', ok) := o.unregister
-    if ok then
-      let (n', ok2) := n.unregister
-      if ok2 then (.register n', [.reg o.id .unregister true, .reg n.id .unregister true, dropObs o', .ret .ok])
-      else (.replace n' o', [.reg o.id .unregister true, .reg n.id .unregister false, .ret .err])
+    if ok then (.register n, [.reg o.id .unregister true, dropObs o', .ret .ok])
     else (.replace n o', [.reg o.id .unregister false, .ret .err])
   | .none => (.none, [.ret .ok])
 
